@@ -136,6 +136,16 @@ CHECKS = {
         "every separator-like code point in 7 positions and all pairs.",
         "Trailing terminator of data may or may not give a final empty line; data-less events may dispatch nothing or one empty event.",
     ),
+    "C20": (
+        "exploration",
+        "differential: Hypothesis inner applications x middleware/decorator stacks of depth 0..3, wrapped vs bare application through strict WSGI/ASGI gateways",
+        "Generated inner applications (all response classes as app or view, raw apps returning list/tuple/iterator/generator/empty iterable, "
+        "several Set-Cookie lines, repeated headers, unassigned statuses, custom reason phrases, failures before/after start/mid-body, files "
+        "with ranges) are run bare and wrapped in stacks of identity / add / replace / delete-header middlewares and view decorators on both "
+        "interfaces; status, header multiset (edited as the stack prescribes), body bytes, exception class and the inner invocation count "
+        "must agree. A raw-app grid (chunk counts x iterable kinds x cookie counts x depth) is exhaustive.",
+        "Repeated non-Set-Cookie headers may be combined with ', '. Chunking, reason phrase, header order free.",
+    ),
 }
 
 NOT_YET = "check not built yet (work in progress; see DESIGN.md section 3 for the plan)"
